@@ -28,17 +28,17 @@ class TestConstantFoldingIntegerAdditionPattern(RewritePattern):
         if not isinstance(op, AddiOp):
             return
 
-        # Ensure both operands are constants
-        lhs_op: ConstantOp = op.operands[0].op  # pyright: ignore
-        rhs_op: ConstantOp = op.operands[1].op  # pyright: ignore
-        assert lhs_op.has_trait(ConstantLike)  # pyright: ignore
-        assert rhs_op.has_trait(ConstantLike)  # pyright: ignore
+        # Only rewrite when both operands are constants
+        lhs_op = op.operands[0].owner
+        rhs_op = op.operands[1].owner
+        if not (isinstance(lhs_op, ConstantOp) and isinstance(rhs_op, ConstantOp)):
+            return
 
         # Calculate the result of the addition
         lhs: int = lhs_op.value.value.data  # pyright: ignore
         rhs: int = rhs_op.value.value.data  # pyright: ignore
         folded_op = ConstantOp(
-            IntegerAttr(lhs + rhs, op.result.type)  # pyright: ignore[reportCallIssue, reportArgumentType]
+            IntegerAttr(lhs + rhs, op.result.type, truncate_bits=True)  # pyright: ignore[reportCallIssue, reportArgumentType]
         )
 
         # Rewrite with the calculated result
